@@ -694,7 +694,15 @@ func c20Foreign(chk *fw.Check) int {
 				before := treeSnapshot(dir, "")
 				w := NewCW(CWOpt{Disk: disk, SigMode: config.SignatureValidationModeVerify, Dir: cfgDir})
 				w.Net.Serve(urlA, "doc", doc)
-				if err := w.Provision(); err != nil {
+				if wdName == "crl[1]" {
+					// this start fails later on: a configured crl_url is unreachable. The cleaning is part of every start
+					w = NewCW(CWOpt{Disk: disk, SigMode: config.SignatureValidationModeVerify, Dir: cfgDir, URLs: []string{urlB}})
+					w.Net.Down(urlB)
+					if err := w.Provision(); err == nil {
+						chk.Violation("C20|harness|foreign", "Provision succeeded although the configured crl_url is down", nil)
+						return
+					}
+				} else if err := w.Provision(); err != nil {
 					chk.Violation("C20|provision-fails|foreign", err.Error(), nil)
 					return
 				}
@@ -705,6 +713,9 @@ func c20Foreign(chk *fw.Check) int {
 					top := strings.Split(name, "/")[0]
 					if top == "crl_123_tmp" || top == "crl_abc_tmp" {
 						continue
+					}
+					if strings.HasPrefix(d, "created:") && len(top) == 64 && strings.Trim(top, "0123456789abcdef") == "" {
+						continue // the store directory of the configured crl_url (the start which fails later)
 					}
 					chk.Violation("C20|foreign-entry-touched|"+top, fmt.Sprintf("%s backend: startup cleaning %s (does not match crl_*_tmp)", be(disk), d), nil)
 				}
